@@ -122,7 +122,9 @@ def impl_init():
                     sec = "request" if int(k.tcp.type) == 2 else "response"
                     # (observations are appended to the file one block at a time, each under its own section header: the section continues)
                     more = "[tcp:%s]\nlabel = s:unix:Appended:later\nsig = 4:255:0:1:31337,0:mss::0\n" % sec if len(text) % 2 else ""
-                    U.load_db("[tcp:%s]\nlabel = s:unix:Written:x\nsig = %s\n%s" % (sec, text, more), shared_db)
+                    # (the layout / quirk text does not depend on the direction: the same observation may be filed under both directions of the same label)
+                    both = "[tcp:%s]\nlabel = s:unix:Written:x\nsig = %s\n" % ("response" if sec == "request" else "request", text) if len(text) % 3 == 0 else ""
+                    U.load_db("%s[tcp:%s]\nlabel = s:unix:Written:x\nsig = %s\n%s" % (both, sec, text, more), shared_db)
                     try:
                         r = fingerprint_tcp(k, options=Options(database=shared_db))
                         out["db_match"] = None if r.match is None else r.match.type.name
